@@ -81,6 +81,29 @@ mod imp {
         })
     }
 
+    // ---- a one-element result broadcast into a longer caller buffer (the documented rule of write_trust_iter) ----
+    pub const BROADCAST_ENTRIES: [&str; 5] = ["VecDeque.rolling_custom", "opt().rolling_custom", "Vec.rolling2_custom", "once.write", "VecDeque.rolling_custom_iter.write"];
+    /// entry `e` with a series of one element into an instrumented buffer of `bl` slots
+    pub fn broadcast_write(e: usize, bl: usize) -> Outcome<Vec<Cell>> {
+        use std::collections::VecDeque;
+        let one: Vec<f64> = vec![4.0];
+        let dq: VecDeque<f64> = one.iter().cloned().collect();
+        catch(|| {
+            let mut buf = <ProbeOut<f64> as Vec1<f64>>::uninit(bl);
+            {
+                let mut out = <ProbeOut<f64> as Vec1<f64>>::uninit_ref_mut(&mut buf);
+                match e {
+                    0 => assert!(dq.rolling_custom::<ProbeOut<f64>, f64, _>(1, |s: std::collections::vec_deque::Iter<'_, f64>| Iterator::sum::<f64>(s), Some(out)).is_none()),
+                    1 => assert!(one.opt().rolling_custom::<ProbeOut<f64>, f64, _>(1, |s: Vec<Option<f64>>| Iterator::sum::<f64>(s.into_iter().flatten()), Some(out)).is_none()),
+                    2 => assert!(one.rolling2_custom::<ProbeOut<f64>, f64, Vec<f64>, f64, _>(&one, 1, |a: &[f64], b: &[f64]| a[0] + b[0] - 4.0, Some(out)).is_none()),
+                    3 => std::iter::once(4.0f64).write(&mut out).unwrap(),
+                    _ => dq.rolling_custom_iter(1, |s: std::collections::vec_deque::Iter<'_, f64>| Iterator::sum::<f64>(s)).write(&mut out).unwrap(),
+                }
+            }
+            buf.finish().cells()
+        })
+    }
+
     // ---- caller buffers in non-canonical physical layouts (DESIGN 5.14) ----
     use mc_adapt::outbuf::{set_fill_override, take_last_base, OutBuf};
     use std::collections::VecDeque;
@@ -432,6 +455,38 @@ fn check_layouts(fam: &str, word: &[u8], x: &[X], ctx: &mut Ctx) {
     }
 }
 
+/// the broadcast rule of buffer writes: every slot of a buffer longer than a one-element result is written
+/// exactly once, with that element
+fn check_broadcast(ctx: &mut Ctx) {
+    let fam = "broadcast-write";
+    for (e, ename) in BROADCAST_ENTRIES.iter().enumerate() {
+        for bl in 1..=5usize {
+            ctx.states += 1;
+            ctx.fam(fam).states += 1;
+            ctx.nontrivial(fam, (e * 10 + bl) as u64);
+            probe_reset();
+            let out = broadcast_write(e, bl);
+            let log = probe_take();
+            ctx.eval(fam, mix(outcome_hash(&out), hash_bytes(format!("{:?}", log.faults).as_bytes())));
+            ctx.transitions += log.usets;
+            let want: Vec<Cell> = vec![Cell::F(4.0); bl];
+            let ok = log.faults.is_empty() && matches!(&out, Outcome::Ok(c) if cells_eq(c, &want, exact_eq));
+            if ok {
+                ctx.traces += 1;
+            } else {
+                ctx.violation(Violation {
+                    entry: format!("{ename} (one element into a longer buffer)"),
+                    finding: None,
+                    size: bl,
+                    case: json!({"family": fam, "entry": ename, "buffer_len": bl}),
+                    expected: format!("every slot written exactly once: {}", show_cells(&want)),
+                    got: format!("{}; outcome {}", truncate(&log.faults.join("; "), 300), truncate(&show_outcome(&out), 120)),
+                });
+            }
+        }
+    }
+}
+
 struct LayoutFam {
     alpha: Vec<X>,
     max_len: usize,
@@ -481,7 +536,9 @@ fn main() {
             std::process::exit(2)
         });
         let mut ctx = Ctx::new();
-        if stored["case"]["family"] == "caller-layouts" {
+        if stored["case"]["family"] == "broadcast-write" {
+            check_broadcast(&mut ctx);
+        } else if stored["case"]["family"] == "caller-layouts" {
             check_layouts("caller-layouts", &[], &word_from_json(&stored["case"]["series"]), &mut ctx);
         } else if stored["case"]["family"] == "kernels-long" {
             check_series("kernels-long", &[], word_from_json(&stored["case"]["series"]), &mut ctx);
@@ -492,6 +549,7 @@ fn main() {
     }
     let mut total = explore_tree(&fam, run.threads);
     total.merge(kernels_long(!run.quick(), run.threads));
+    check_broadcast(&mut total);
     let lf = LayoutFam { alpha: vec![None, Some(0.0), Some(1.0)], max_len: run.pick(4, 6) };
     total.merge(explore_tree(&lf, run.threads));
     {
